@@ -259,31 +259,7 @@ func oracles(c *hx.Ctx, p *pkg, k kase, o *observation) {
 		return append(all, o.docPages...)
 	}
 	f := p.Fmt
-	desc := func() string {
-		var b strings.Builder
-		fmt.Fprintf(&b, "%s/%s declared=[", p.Fmt, p.Variant)
-		for _, d := range p.Declared {
-			fmt.Fprintf(&b, "{%s ref=%q name=%q st=%d", d.Tok, d.Ref, d.Name, d.State)
-			if p.Fmt == "xlsx" {
-				fmt.Fprintf(&b, " sheetId=%d rid=%q", d.SheetID, d.ID)
-			}
-			if d.NotesRef != "" {
-				fmt.Fprintf(&b, " notes=%s target=%q member=%q", d.NotesTok, d.NotesRef, d.NotesName)
-			}
-			b.WriteString("} ")
-		}
-		for _, d := range p.Decoys {
-			if d.NotesRef != "" {
-				fmt.Fprintf(&b, "{decoy %s name=%q notes=%s target=%q member=%q} ", d.Tok, d.Name, d.NotesTok, d.NotesRef, d.NotesName)
-			}
-		}
-		b.WriteString("] zip=[")
-		for _, i := range p.ZipOrder {
-			b.WriteString(p.Docs[i].name + " ")
-		}
-		b.WriteString("]")
-		return b.String()
-	}
+	desc := p.describe
 	if len(E) == 0 {
 		// nothing declared is readable: the reader must not present anything else instead
 		shown := false
@@ -482,6 +458,33 @@ func oracles(c *hx.Ctx, p *pkg, k kase, o *observation) {
 	}
 }
 
+// describe renders the logical package for failure messages.
+func (p *pkg) describe() string {
+	var b strings.Builder
+	fmt.Fprintf(&b, "%s/%s declared=[", p.Fmt, p.Variant)
+	for _, d := range p.Declared {
+		fmt.Fprintf(&b, "{%s ref=%q name=%q st=%d", d.Tok, d.Ref, d.Name, d.State)
+		if p.Fmt == "xlsx" {
+			fmt.Fprintf(&b, " sheetId=%d rid=%q", d.SheetID, d.ID)
+		}
+		if d.NotesRef != "" {
+			fmt.Fprintf(&b, " notes=%s target=%q member=%q", d.NotesTok, d.NotesRef, d.NotesName)
+		}
+		b.WriteString("} ")
+	}
+	for _, d := range p.Decoys {
+		if d.NotesRef != "" {
+			fmt.Fprintf(&b, "{decoy %s name=%q notes=%s target=%q member=%q} ", d.Tok, d.Name, d.NotesTok, d.NotesRef, d.NotesName)
+		}
+	}
+	b.WriteString("] zip=[")
+	for _, i := range p.ZipOrder {
+		b.WriteString(p.Docs[i].name + " ")
+	}
+	b.WriteString("]")
+	return b.String()
+}
+
 var exts = map[string]string{"xlsx": ".xlsx", "pptx": ".pptx", "epub": ".epub"}
 
 func genCase(r *hx.Rng, idx int) *pkg {
@@ -515,6 +518,15 @@ func RunCase(c *hx.Ctx, idx int, keep bool) {
 	c.Op(p.opLine(), line)
 	if p.Oracle && o.panicked == "" {
 		oracles(c, p, k, o)
+	}
+	// one opened reader, a generated sequence of calls (selections naming a subset or a
+	// permutation of the parts, Text/Markdown/Document interleaved and repeated): the
+	// statement after every call (seq.go), and the model once more on what the used
+	// reader presents
+	if o.opened && o.panicked == "" {
+		if after := runSequence(c, p, k, path, idx); after != "" {
+			c.Op(p.opLine(), after)
+		}
 	}
 	// distribution of what was generated
 	c.Count(p.Fmt + "/" + p.Variant)
@@ -664,7 +676,7 @@ func hrefOps(c *hx.Ctx, from, n int) {
 }
 
 func Run(c *hx.Ctx) {
-	c.Rep.Rule = "packages: XLSX / PPTX / EPUB 2+3 written by the harness's own writers from a logical package = declared list (1-6 parts, each with a unique text token; states ok/missing/malformed/dangling/wrong-kind), decoy parts (unreferenced; some listed in rels/manifest but not declared), XLSX sheetId values a random permutation (non-ascending, sparse) unrelated to position and to r:id, PPTX speaker-notes parts with their own unique token behind the slide's own relationship part (for readable, unreadable and decoy slides; conventional/renamed/absolute targets, numbered independently of the slides), part paths nested/renamed/absolute/with dot segments, file numbers a random permutation of the declared order, ZIP member order another random permutation, optional parts (rels, sharedStrings, docProps, mimetype, NCX, nav) randomly absent; hrefs percent-encoded in 4 styles incl. space, unicode, '+', '%', '#'. href ops: structured (reference built from the member it denotes) and junk strings. non-trivial = the package opened with at least one part; distinct by op line"
+	c.Rep.Rule = "packages: XLSX / PPTX / EPUB 2+3 written by the harness's own writers from a logical package = declared list (1-6 parts, each with a unique text token; states ok/missing/malformed/dangling/wrong-kind), decoy parts (unreferenced; some listed in rels/manifest but not declared), XLSX sheetId values a random permutation (non-ascending, sparse) unrelated to position and to r:id, PPTX speaker-notes parts with their own unique token behind the slide's own relationship part (for readable, unreadable and decoy slides; conventional/renamed/absolute targets, numbered independently of the slides), part paths nested/renamed/absolute/with dot segments, file numbers a random permutation of the declared order, ZIP member order another random permutation, optional parts (rels, sharedStrings, docProps, mimetype, NCX, nav) randomly absent; hrefs percent-encoded in 4 styles incl. space, unicode, '+', '%', '#'. call sequences: on one opened reader of every package that opens, 2-6 generated calls (xlsx ExtractOptions.Sheets / pptx ExtractOptions.SlideNumbers selections through TextWithOptions, MarkdownWithOptions, MarkdownWithRAGOptions: a single part that is not the first, suffix, ascending non-prefix subset, reversed list, permutation, subset in any order, prefix, and lenient selections with out-of-range or repeated indices; epub TextWithOptions/MarkdownWithOptions with the 4 navigation modes; Text, Markdown, Document, part accessors, Tables/SheetByName/Metadata interleaved, repeated), the statement evaluated on every accessor after every call and against a fresh reader, and the model compared once more with the used reader. href ops: structured (reference built from the member it denotes) and junk strings. non-trivial = the package opened with at least one part; distinct by op line"
 	n := c.N(600, 9000)
 	only := os.Getenv("C18_FMT") // debugging aid: restrict the stream to one format
 	for i := 0; i < n; i++ {
